@@ -239,10 +239,16 @@ class Builder:
             return pt.App.localGet(B(a[0]), B(a[1]))
         if k == "LDel":
             return pt.App.localDel(B(a[0]), B(a[1]))
+        if k in _BOX:
+            return getattr(pt.App, _BOX[k])(*[B(x) for x in a])
         if k == "MV":
             args = [B(x) for x in a]
             if node["s"] == "GGetEx":
                 mv = pt.App.globalGetEx(*args)
+            elif node["s"] == "BoxGet":
+                mv = pt.App.box_get(*args)
+            elif node["s"] == "BoxLen":
+                mv = pt.App.box_length(*args)
             else:
                 mv = LEDGER_MV[node["s"]](*args)
             mvs[node["i"][0]] = mv
@@ -282,6 +288,8 @@ ENUMS = {"NoOp": pt.OnComplete.NoOp, "OptIn": pt.OnComplete.OptIn, "CloseOut": p
          "DeleteApplication": pt.OnComplete.DeleteApplication, "pay": pt.TxnType.Payment, "keyreg": pt.TxnType.KeyRegistration,
          "acfg": pt.TxnType.AssetConfig, "axfer": pt.TxnType.AssetTransfer, "afrz": pt.TxnType.AssetFreeze,
          "appl": pt.TxnType.ApplicationCall}
+
+_BOX = {"BoxCreate": "box_create", "BoxPut": "box_put", "BoxDel": "box_delete", "BoxExtract": "box_extract", "BoxReplace": "box_replace"}
 
 LEDGER_MV = {
     "AssetBalance": pt.AssetHolding.balance, "AssetFrozen": pt.AssetHolding.frozen,
